@@ -1350,7 +1350,7 @@ pub fn execute_robust(p: &RobustPlan) -> RunOutcome {
     let code = sp.status;
     if code == Some(97) {
         out.unjudged = Some("tick budget exhausted in the child process".into());
-    } else if sp.signal || code == Some(101) || !matches!(code, Some(0) | Some(1) | Some(2)) {
+    } else if sp.signal || code == Some(101) || code.is_none() {
         vs.push(viol(
             "C12",
             "P1",
